@@ -261,7 +261,23 @@ def step_terms(s, ins, values=None):
     return snap, vars_
 
 
+def param_signature(text):
+    """{module name without instance suffix: [(parameter, default or None)]} of a text (parser only)"""
+    import re
+    sig = {}
+    for m in parse(text):
+        base = re.sub(r'_[0-9a-f]{9,}$', '', m.name)
+        sig.setdefault(base, []).append([(pn, None if dv is None else repr(getattr(dv, 'value', dv))) for pn, dv in m.params])
+    return {k: sorted(v) for k, v in sig.items()}
+
+
 def equivalent_texts(p, label, t1, t2, top=None):
+    try:
+        s1, s2 = param_signature(t1), param_signature(t2)
+        p.structural('%s: same module parameters and defaults' % label, s1 == s2,
+                     detail={'first': {k: v for k, v in s1.items() if s2.get(k) != v}, 'other': {k: v for k, v in s2.items() if s1.get(k) != v}})
+    except (VlogSyntaxError, VlogUnsupported):
+        pass
     try:
         d1 = elab.load(t1, top=top)
     except (VlogSyntaxError, VlogUnsupported) as e:
@@ -404,7 +420,14 @@ def ancestor_task(p, cfg, rec):
     outer = box.children['outer']
     inner = outer.children['inner']
     cnt = outer.children['cnt']
-    for sub, nm in ((inner, 'inner'), (cnt, 'cnt'), (outer, 'outer')):
+    # a parametrised block two levels down (module parameter handed down from its parent)
+    from .c03 import ParamBox
+    with quiet():
+        pa, pr = s.wire('pa', 8), s.wire('pr', 8)
+        ptop = ParamBox(outer, 'ptop', pa, pr, 3, 1)
+    pinner = ptop.children['inner']
+    pleaf = pinner.children['leaf']
+    for sub, nm in ((inner, 'inner'), (cnt, 'cnt'), (outer, 'outer'), (pleaf, 'parametrised leaf'), (pinner, 'parametrised block')):
         texts = []
         for anc, an in ((sub, 'itself'), (outer, 'outer'), (box, 'box'), (s, 'system')):
             out = io.StringIO()
